@@ -226,6 +226,18 @@ Definition parse (inp : str) : pstate * bool :=
     (ps, match rest with [] => true | _ => false end)
   end.
 
+(** a further call of parse() on the SAME parser object: the name list and the conditions collected so far stay,
+    the new facts are added behind them ([parse] is the first call) *)
+Definition parse_from (ps0 : pstate) (inp : str) : pstate * bool :=
+  match fact ps0 inp with
+  | None => (ps0, false)
+  | Some (r, ps1) =>
+    let '(rest, ps) := facts_f (length inp) ps1 r in
+    (ps, match rest with [] => true | _ => false end)
+  end.
+Lemma parse_from_pinit inp : parse_from pinit inp = parse inp.
+Proof. reflexivity. Qed.
+
 (** byte-wise lexicographic order on labels (String's Ord), used by varsort_lexi *)
 Fixpoint str_leb (a b : str) : bool :=
   match a, b with
